@@ -108,6 +108,15 @@ impl BlockWriter {
             let output = self.md5_context.take().map(|ctx| ctx.finalize().0);
             self.md5 =
                 output.map(|output| base64::engine::general_purpose::STANDARD.encode(output));
+
+            if let Some(content_length_left) = self.content_length_left {
+                if content_length_left != 0 {
+                    return Err(FluteError::new(format!(
+                        "Object is completed, {} bytes of its Content-Length are missing",
+                        content_length_left
+                    )));
+                }
+            }
         }
 
         Ok(true)
@@ -130,6 +139,15 @@ impl BlockWriter {
         writer: &dyn ObjectWriter,
         now: SystemTime,
     ) -> Result<()> {
+        if let Some(content_length_left) = self.content_length_left.as_mut() {
+            if data.len() > *content_length_left {
+                return Err(FluteError::new(
+                    "Object is larger than its Content-Length",
+                ));
+            }
+            *content_length_left -= data.len();
+        }
+
         if let Some(ctx) = self.md5_context.as_mut() {
             ctx.consume(data)
         }
@@ -191,7 +209,13 @@ impl BlockWriter {
                 return Ok(());
             }
 
-            if self.content_length_left == Some(0) {
+            // Never write more than Content-Length
+            let size = match self.content_length_left {
+                Some(content_length_left) => std::cmp::min(size, content_length_left),
+                None => size,
+            };
+
+            if size == 0 {
                 // The whole content is written: keep reading the decoder, so that it
                 // consumes the end of the compressed stream, but do not write anymore
                 continue;
